@@ -503,6 +503,46 @@ func TestC20(t *testing.T) {
 		}
 		c20Eval(t, c)
 	}
+	// hand-built: a counted parameter function reached through chains of parameters that are nothing but a reference to
+	// another parameter, through a concatenation and through service arguments, all requested at once: however a parameter
+	// is reached, its expression is evaluated once per container
+	if ev.Mine(1) {
+		var c c20Case
+		for v := 0; v < 3; v++ {
+			conf := cfg.Config{Meta: cfg.Meta{Pkg: sp("app"), Functions: []cfg.KV{{K: "cnt", V: "fx/lib.Count"}}},
+				Params: []cfg.Param{
+					{Name: "base", Val: cfg.Str(`%cnt("kcnt", 7)%`)},
+					{Name: "alias", Val: cfg.Str("%base%")},
+					{Name: "alias2", Val: cfg.Str("%alias%")},
+					{Name: "concat", Val: cfg.Str("v=%base%")},
+					{Name: "both", Val: cfg.Str("%alias2%-%base%")},
+				},
+				Services: []cfg.Service{
+					{Name: "a", Ctor: sp("fx/lib.NewObj"), Args: []cfg.Val{cfg.Str("%alias%"), cfg.Str("%base%")}},
+					{Name: "b", Ctor: sp("fx/lib.NewObj"), Args: []cfg.Val{cfg.Str("%alias2%")}, Scope: sp("non_shared")},
+				}}
+			names := [][]string{{"alias", "base", "alias2", "concat", "both"}, {"alias2", "alias", "base"}, {"both", "alias"}}[v]
+			var sc fx.Script
+			sc.Procs, sc.Timeout = 16, 120
+			for round := 0; round < 3; round++ {
+				if round > 0 {
+					sc.Ops = append(sc.Ops, fx.Op{Op: "new"})
+				}
+				par := fx.Op{Op: "par", Yield: []int{0, 2, 5}}
+				for g := 0; g < 32; g++ {
+					var ops []fx.Op
+					for k := range names {
+						ops = append(ops, fx.Op{Op: "param", ID: names[(k+g)%len(names)]})
+					}
+					ops = append(ops, fx.Op{Op: "get", ID: []string{"a", "b"}[g%2], Ctx: []string{"", "A"}[g%4/2]})
+					par.Par = append(par.Par, ops)
+				}
+				sc.Ops = append(sc.Ops, par, fx.Op{Op: "counters"})
+			}
+			c.Members = append(c.Members, c20Member{C: conf, Script: sc, Labels: []string{"hand-built:counted-parameter-behind-reference-only-parameters"}})
+		}
+		c20Eval(t, c)
+	}
 	batch := pick(8, 12)
 	setRapidChecks(pick(4, 30))
 	opts := behaviouralOpts()
